@@ -638,3 +638,82 @@ func ChromaticNumberFast(g *G) int {
 	}
 	return int(f[size-1])
 }
+
+// MaximalCliquesLarge lists the maximal cliques of a graph on any number of vertices with the textbook recursion
+// "extend R by a vertex of P, move it to X" (pivoting on the vertex of P u X with most neighbours in P), over boolean
+// membership slices. It stops and returns nil, false once more than limit cliques were found.
+func MaximalCliquesLarge(g *G, limit int) ([][]int, bool) {
+	n := g.N
+	var out [][]int
+	var R []int
+	over := false
+	var rec func(P, X []int)
+	rec = func(P, X []int) {
+		if over {
+			return
+		}
+		if len(P) == 0 {
+			if len(X) == 0 {
+				c := append([]int{}, R...)
+				sort.Ints(c)
+				out = append(out, c)
+				if len(out) > limit {
+					over = true
+				}
+			}
+			return
+		}
+		pivot, best := -1, -1
+		for _, cand := range [][]int{P, X} {
+			for _, u := range cand {
+				k := 0
+				for _, w := range P {
+					if g.A[u][w] {
+						k++
+					}
+				}
+				if k > best {
+					pivot, best = u, k
+				}
+			}
+		}
+		todo := []int{}
+		for _, v := range P {
+			if !g.A[pivot][v] {
+				todo = append(todo, v)
+			}
+		}
+		inP := make(map[int]bool, len(P))
+		for _, v := range P {
+			inP[v] = true
+		}
+		Xc := append([]int{}, X...)
+		for _, v := range todo {
+			var P2, X2 []int
+			for _, w := range P {
+				if inP[w] && g.A[v][w] {
+					P2 = append(P2, w)
+				}
+			}
+			for _, w := range Xc {
+				if g.A[v][w] {
+					X2 = append(X2, w)
+				}
+			}
+			R = append(R, v)
+			rec(P2, X2)
+			R = R[:len(R)-1]
+			inP[v] = false
+			Xc = append(Xc, v)
+		}
+	}
+	all := make([]int, n)
+	for i := range all {
+		all[i] = i
+	}
+	rec(all, nil)
+	if over {
+		return nil, false
+	}
+	return out, true
+}
